@@ -4,7 +4,7 @@
    GcxsGetitem2dP.v (tail_nd, tail_eval, pat_nd/pat_rows/pat_cols, post) and GcxsNdL.v (rav, positions). *)
 From Coq Require Import ZArith List Bool Lia Sorting.Sorted Sorting.Permutation.
 From Verif Require Import Py PySlice Shape COO COOP GCXS Convert ConvertL ConvertG NpIndex CooIndex
-     CooIndexMaskP CooIndexNormP CooIndexP CooIndexArrP GcxsIndex GcxsIndexP GcxsGetitem GcxsGetitemP GcxsGetitem2dP GcxsNdL GcxsNoneL.
+     CooIndexMaskP CooIndexNormP CooIndexP CooIndexArrP GcxsIndex GcxsIndexP GcxsGetitem GcxsGetitemP GcxsGetitem2dP GcxsNdL.
 Import ListNotations.
 Open Scope Z_scope.
 
@@ -872,272 +872,6 @@ Section Nd.
   Qed.
   End Branches.
 
-  (* ---------------------------------------------------------------- facts of the branches, for the None case *)
-  Lemma len2_M : kc <> [] -> kr <> [] -> (2 <= length sh')%nat.
-  Proof. intros H1 H2. unfold sh'. rewrite map_length, K_length. destruct kc; [contradiction|]. destruct kr; [contradiction|]. simpl. lia. Qed.
-
-  Lemma caxes_M : kc <> [] -> kr <> [] -> caxes_okb (Z.of_nat (length sh')) (map kpos kc) = true.
-  Proof.
-    intros H1 H2. unfold caxes_okb. rewrite !andb_true_iff. repeat split.
-    - destruct kc; [contradiction|reflexivity].
-    - apply Z.ltb_lt. rewrite map_length. unfold sh'. rewrite map_length, K_length. destruct kr; [contradiction|]. simpl. lia.
-    - apply NoDupb_NoDup. apply NoDup_map_in; [|apply NoDup_filter; apply caxes_okb_spec in Hca; apply Hca].
-      intros a b Ha Hb. apply index_of_inj; apply kc_K; assumption.
-    - apply forallb_forall. intros x Hx. apply in_map_iff in Hx. destruct Hx as [a [<- Ha]].
-      pose proof (index_of_bounds a K (kc_K a Ha)) as Hb. unfold sh'. rewrite map_length. unfold kpos. lia.
-  Qed.
-
-  Lemma rowsize_M : row_size sh' (map kpos kc) = Z.of_nat (length RW).
-  Proof.
-    unfold row_size. rewrite map_map. rewrite RW_len, <- size_kc. f_equal. apply map_ext_in. intros a Ha.
-    unfold sh'. apply (znth_index_of L a K 0 (kc_K a Ha)).
-  Qed.
-
-  Lemma colsize_M : col_size sh' (map kpos kc) = Z.of_nat (length CL).
-  Proof.
-    unfold col_size, reordered_shape.
-    assert (EO : axis_order (Z.of_nat (length sh')) (map kpos kc) = map kpos (kc ++ kr)).
-    { unfold sh'. rewrite map_length. pose proof (order_in_sublist K (fun a => mem_z a ca) K_NoDup) as EO. cbv zeta in EO.
-      rewrite K_split_c, K_split_r in EO. exact EO. }
-    rewrite EO, map_app, map_app. rewrite <- (map_length (fun a => znth sh' a 0) (map kpos kc)) at 1. rewrite skipn_app_exact.
-    rewrite map_map, CL_len, <- size_kr. f_equal. apply map_ext_in. intros a Ha.
-    unfold sh'. apply (znth_index_of L a K 0 (kr_K a Ha)).
-  Qed.
-
-  Lemma K_of_C : kr = [] -> kc ++ kr = K.
-  Proof. intros H2. rewrite H2, app_nil_r. rewrite <- K_split_c. apply filter_neg_nil. rewrite K_split_r. exact H2. Qed.
-
-  Lemma K_of_U : kc = [] -> kc ++ kr = K.
-  Proof. intros H1. rewrite H1. cbn [app]. rewrite <- K_split_r. apply filter_pos_nil. rewrite K_split_c. exact H1. Qed.
-
-  Lemma Hkey_0 : kc ++ kr = K -> (2 <= length sh')%nat ->
-    forall D, (forall a, In a axes -> 0 <= D a < L a) -> ckey sh' [0] (map D K) = rav L D (filter kept (ca ++ rest)).
-  Proof. intros HK Hl2. apply (Hkey_K (ckey sh' [0]) HK). intros j Hj. apply ckey_0; [lia|exact Hj]. Qed.
-
-  Lemma CL_single : kr = [] -> exists x, CL = [x].
-  Proof.
-    intros H2. apply length1. pose proof CL_len as Hl. rewrite <- size_kr in Hl. rewrite H2 in Hl. change (size (map L [])) with 1 in Hl. lia.
-  Qed.
-
-  Lemma RW_single : kc = [] -> exists r, RW = [r].
-  Proof.
-    intros H1. apply length1. pose proof RW_len as Hl. rewrite <- size_kc in Hl. rewrite H1 in Hl. change (size (map L [])) with 1 in Hl. lia.
-  Qed.
-
-  (* ---------------------------------------------------------------- None in the index *)
-  Section WithNone.
-  Variable key : list nentry.
-  Hypothesis Hkeyf : filter not_nnone key = nix.
-  Hypothesis Hnok : none_ok key = true.
-  Hypothesis Hk2 : (2 <= length K)%nat.
-  Hypothesis HnaK : (n_arr key <= 1)%nat.
-  Variable y : coo V.
-  Variable ix : index.
-  Hypothesis HyN : yfacts V c y (out_shape (map to_r key)) (src_of (map to_r key)).
-  Hypothesis HnN : normalize_index ix sh = Ok key.
-  Hypothesis HafN : all_full key sh = false.
-  Hypothesis HintN : forallb is_nint key = false.
-
-  Local Notation gsrcN := (src_of (map to_r key)).
-  Local Notation gsrc := (src_of (map to_r nix)).
-  Local Notation g := (gcxs_from_coo c ca).
-
-  Lemma kcnt_K : kcnt key = length sh'.
-  Proof.
-    rewrite kcnt_filter. rewrite Hkeyf.
-    unfold sh'. rewrite map_length. unfold K. rewrite nix_map at 1. rewrite filter_map_comm, map_length. reflexivity.
-  Qed.
-
-  Lemma Hl2' : (2 <= length sh')%nat.
-  Proof. unfold sh'. rewrite map_length. exact Hk2. Qed.
-
-  Definition shN : shape := weave key sh'.
-
-  Lemma shN_eq : out_shape (map to_r key) = shN.
-  Proof.
-    unfold out_shape. rewrite (out_shape_weave key false ltac:(discriminate) HnaK).
-    rewrite Hkeyf.
-    change (out_shape_aux false (map to_r nix)) with (out_shape (map to_r nix)). rewrite out_shape_nix. reflexivity.
-  Qed.
-
-  Lemma gsrcN_eq j : gsrcN j = gsrc (sqk key j).
-  Proof.
-    unfold src_of. rewrite (src_sqk key None j ltac:(intros H; contradiction) HnaK).
-    rewrite Hkeyf. reflexivity.
-  Qed.
-
-  Lemma shN_ok : shape_ok shN.
-  Proof.
-    unfold shN. generalize sh'_ok. generalize sh'. clear. intros s. revert s. unfold shape_ok.
-    induction key as [|e r IH]; intros s Hs; [exact Hs|].
-    assert (Ht : Forall (fun d => 0 <= d) (tl s)) by (destruct s; [constructor|inversion Hs; assumption]).
-    assert (Hh : 0 <= hd 0 s) by (destruct s; [simpl; lia|inversion Hs; assumption]).
-    destruct e; cbn [weave]; try (constructor; [first [exact Hh|lia]|]); apply IH; assumption.
-  Qed.
-
-  Lemma shN_len : (2 <= length shN)%nat.
-  Proof. pose proof (weave_length key sh' ltac:(rewrite kcnt_K; lia)) as H. pose proof Hl2'. unfold shN. lia. Qed.
-
-  (* the result for a target layout (sh', ca0) without None carries over to (shN, caN) *)
-  Section Target.
-  Variable ca0 : list Z.
-  Hypothesis Hca0 : caxes_okb (Z.of_nat (length sh')) ca0 = true.
-  Hypothesis Hkey0 : forall D, (forall a, In a axes -> 0 <= D a < L a) -> ckey sh' ca0 (map D K) = rav L D (filter kept (ca ++ rest)).
-  Variable caN : list Z.
-  Hypothesis ER : reinsert_none key 0 sh' ca0 = (shN, caN).
-
-  Lemma target_spec :
-    caxes_okb (Z.of_nat (length shN)) caN = true
-    /\ row_size shN caN = row_size sh' ca0 /\ col_size shN caN = col_size sh' ca0
-    /\ forall j, in_range shN j -> ckey shN caN j = ckey sh' ca0 (sqk key j).
-  Proof.
-    pose proof (reinsert_spec key [] sh' ca0 Hnok ltac:(rewrite kcnt_K; lia) Hca0) as H. cbv zeta in H.
-    cbn [length app] in H. rewrite ER in H. cbn [fst snd] in H. destruct H as [_ [H2 [H3 [H4 H5]]]].
-    split; [exact H2|]. split; [exact H3|]. split; [exact H4|]. intros j Hj. apply (H5 [] j eq_refl Hj).
-  Qed.
-
-  Lemma BR2_N : forall j, in_range shN j ->
-    exists m cc : nat, (m < length RW)%nat /\ (cc < length CL)%nat
-      /\ ckey shN caN j = Z.of_nat m * Z.of_nat (length CL) + Z.of_nat cc
-      /\ ckey sh ca (gsrcN j) = nth m RW 0 * col_size sh ca + nth cc CL 0.
-  Proof.
-    intros j Hj. destruct target_spec as [_ [_ [_ Hck]]].
-    destruct (BR2_nd (ckey sh' ca0) Hkey0 (sqk key j) (sqk_in_range key sh' j Hj)) as [m [cc [Hm [Hcc [Hk Hs]]]]].
-    exists m, cc. split; [exact Hm|]. split; [exact Hcc|]. split; [rewrite (Hck j Hj); exact Hk|rewrite gsrcN_eq; exact Hs].
-  Qed.
-
-  Lemma BR3_N : forall m cc : nat, (m < length RW)%nat -> (cc < length CL)%nat ->
-    exists j, in_range shN j /\ in_range sh (gsrcN j)
-      /\ ckey shN caN j = Z.of_nat m * Z.of_nat (length CL) + Z.of_nat cc
-      /\ ckey sh ca (gsrcN j) = nth m RW 0 * col_size sh ca + nth cc CL 0.
-  Proof.
-    intros m cc Hm Hcc. destruct target_spec as [_ [_ [_ Hck]]].
-    destruct (BR3_nd (ckey sh' ca0) Hkey0 m cc Hm Hcc) as [j0 [Hj0 [Hs0 [Hk Hs]]]].
-    destruct (unsqk_spec key sh' j0 ltac:(rewrite kcnt_K; lia) Hj0) as [HjN Esq].
-    exists (unsqk key j0). split; [exact HjN|]. rewrite gsrcN_eq, (Hck _ HjN), Esq. auto.
-  Qed.
-
-  Lemma HyN' : yfacts V c y shN gsrcN.
-  Proof. rewrite <- shN_eq. exact HyN. Qed.
-
-  Lemma post_N r : r = gcxs_from_coo y caN -> post V c shN gsrcN (Ok (GGArr r)).
-  Proof.
-    intros ->. destruct target_spec as [HcaN _].
-    apply (post_from_coo V veqb add c y shN gsrcN caN HyN' shN_ok). right. exact HcaN.
-  Qed.
-  End Target.
-
-  Lemma g_shape_eqN : g_shape g = sh. Proof. rewrite g_nf. reflexivity. Qed.
-  Lemma g_caxes_eqN : g_caxes g = ca. Proof. rewrite g_nf. reflexivity. Qed.
-  Lemma g_data_eqN : g_data g = map snd (gsorted V c ca). Proof. rewrite g_nf. reflexivity. Qed.
-  Lemma g_fill_eqN : g_fill g = c_fill c. Proof. rewrite g_nf. reflexivity. Qed.
-
-  Lemma reinsert_shape ca0 : caxes_okb (Z.of_nat (length sh')) ca0 = true ->
-    exists caN, reinsert_none key 0 sh' ca0 = (shN, caN).
-  Proof.
-    intros Hca0. pose proof (reinsert_spec key [] sh' ca0 Hnok ltac:(rewrite kcnt_K; lia) Hca0) as H. cbv zeta in H.
-    cbn [length app] in H. destruct H as [H1 _]. destruct (reinsert_none key 0 sh' ca0) as [s1 caN]. cbn [fst] in H1. subst s1.
-    exists caN. reflexivity.
-  Qed.
-
-  Ltac commonN :=
-    unfold gcxs_getitem_nd; rewrite g_shape_eqN, g_caxes_eqN, HnN; cbn [bind]; rewrite HafN, HintN;
-    rewrite Hkeyf; fold kl; rewrite shape0_eq;
-    fold axes; rewrite comp_eq, unc_eq; rewrite RW_eq, CL_eq, pos_eq, ca'_eq, rs1_eq;
-    replace (length (map L K) =? 0)%nat with false by (symmetry; apply Nat.eqb_neq; rewrite map_length; lia);
-    replace (length (map L K) =? 1)%nat with false by (symmetry; apply Nat.eqb_neq; rewrite map_length; lia);
-    rewrite andb_false_r.
-
-  Lemma shN_not1 : (length shN =? 1)%nat = false.
-  Proof. apply Nat.eqb_neq. pose proof shN_len. lia. Qed.
-
-  Lemma none_M : kc <> [] -> kr <> [] -> post V c shN gsrcN (gcxs_getitem_nd V g ix).
-  Proof.
-    intros H1 H2. destruct (reinsert_shape (map kpos kc) (caxes_M H1 H2)) as [caN ER].
-    assert (F : gcxs_getitem_nd V g ix
-                = tail_nd V g RW CL pos (fun _ => size (map L kc))
-                    (fun ps ip => GGArr (mkGCXS shN caN (dat' g ps) (ind' ps) ip (g_fill g)))).
-    { commonN.
-      assert (E1 : negb match filter kept ca with [] => true | _ :: _ => false end = true) by (fold kc; destruct kc; [contradiction|reflexivity]).
-      assert (E2 : negb match filter kept rest with [] => true | _ :: _ => false end = true) by (fold kr; destruct kr; [contradiction|reflexivity]).
-      rewrite !E1, !E2. cbv beta iota zeta. unfold sh', kc in ER. rewrite ER. rewrite shN_not1. reflexivity. }
-    rewrite F.
-    rewrite (tail_eval V c ca Hc Hok Hca Hnd RW CL pos HRW_nd HCL_nd Hpos_nd) by (cbv beta; rewrite RW_len; apply size_kc).
-    unfold dat', ind'. rewrite g_data_eqN, g_fill_eqN.
-    pose proof (HyN' ) as [Hy_sh [Hy_fill [Hy_can [Hy_den Hy_ent]]]].
-    destruct (target_spec (map kpos kc) (caxes_M H1 H2) caN ER) as [HcaN [Hrs [Hcs _]]].
-    apply (post_N (map kpos kc) (caxes_M H1 H2) caN ER).
-    apply (pat_nd V c ca Hc Hca RW CL shN gsrcN y Hy_can Hy_sh Hy_fill Hy_ent shN_ok (ckey shN caN)
-             (BR2_N (map kpos kc) (caxes_M H1 H2) Hkey_M caN ER) (BR3_N (map kpos kc) (caxes_M H1 H2) Hkey_M caN ER)
-             caN shN_len HcaN (fun j => eq_refl)).
-    - rewrite Hrs. apply rowsize_M.
-    - rewrite Hcs. apply colsize_M.
-  Qed.
-
-  (* compressed-only / uncompressed-only: the re-split record *)
-  Lemma none_0 (fst_list : list Z) ps' caN :
-    kc ++ kr = K ->
-    reinsert_none key 0 sh' [0] = (shN, caN) ->
-    map fst (Lout V c ca RW CL) = fst_list ->
-    ps' = flat_map (rowsel (map fst (gsorted V c ca)) (col_size sh ca) CL) RW ->
-    post V c shN gsrcN
-      (Ok (GGArr (mkGCXS shN caN (map (fun p : nat * nat => nth (fst p) (map snd (gsorted V c ca)) (c_fill c)) ps')
-                         (map (fun u => u mod sz) fst_list)
-                         (indptr_of (map (fun u => u / sz) fst_list) (hd 0 sh')) (c_fill c)))).
-  Proof.
-    intros HK ER Hfst Hps. subst ps'. rewrite <- (Lo_snd V c ca RW CL).
-    pose proof HyN' as [Hy_sh [Hy_fill [Hy_can [Hy_den Hy_ent]]]].
-    pose proof (caxes0_ok sh' Hl2') as Hca0.
-    destruct (target_spec [0] Hca0 caN ER) as [HcaN [Hrs [Hcs _]]].
-    apply (post_N [0] Hca0 caN ER).
-    pose proof (resplit_gen V c ca Hc Hca RW CL shN gsrcN y Hy_can Hy_sh Hy_fill Hy_ent shN_ok (ckey shN caN)
-                  (BR2_N [0] Hca0 (Hkey_0 HK Hl2') caN ER) (BR3_N [0] Hca0 (Hkey_0 HK Hl2') caN ER)
-                  shN_len caN HcaN (fun j => eq_refl)) as E.
-    rewrite Hcs, Hrs, (col_size_0 sh' Hl2'), (row_size_0 sh' Hl2'), Hfst in E. unfold sz. exact E.
-  Qed.
-
-  Lemma none_C : kc <> [] -> kr = [] -> post V c shN gsrcN (gcxs_getitem_nd V g ix).
-  Proof.
-    intros H1 H2. destruct (reinsert_shape [0] (caxes0_ok sh' Hl2')) as [caN ER].
-    assert (F : gcxs_getitem_nd V g ix
-                = tail_nd V g RW CL pos (fun nst => Z.of_nat nst)
-                    (fun ps ip => GGArr (mkGCXS shN caN (dat' g ps) (map (fun u => u mod sz) (row_numbers ip))
-                                                (indptr_of (map (fun u => u / sz) (row_numbers ip)) (hd 0 sh')) (g_fill g)))).
-    { commonN.
-      assert (E1 : negb match filter kept ca with [] => true | _ :: _ => false end = true) by (fold kc; destruct kc; [contradiction|reflexivity]).
-      fold kr. rewrite !E1, !H2. cbv beta iota zeta. cbn [negb]. cbv beta iota zeta. unfold sh' in ER. rewrite ER. rewrite shN_not1. reflexivity. }
-    rewrite F. rewrite (tail_eval V c ca Hc Hok Hca Hnd RW CL pos HRW_nd HCL_nd Hpos_nd) by reflexivity.
-    unfold dat'. rewrite g_data_eqN, g_fill_eqN.
-    destruct (CL_single H2) as [x Hx].
-    apply (none_0 _ _ caN (K_of_C H2) ER (Lo_fst_rows V c ca RW CL x Hx) eq_refl).
-  Qed.
-
-  Lemma none_U : kc = [] -> kr <> [] -> post V c shN gsrcN (gcxs_getitem_nd V g ix).
-  Proof.
-    intros H1 H2. destruct (reinsert_shape [0] (caxes0_ok sh' Hl2')) as [caN ER].
-    assert (F : gcxs_getitem_nd V g ix
-                = tail_nd V g RW CL pos (fun _ => 1)
-                    (fun ps ip => GGArr (mkGCXS shN caN (dat' g ps) (map (fun u => u mod sz) (ind' ps))
-                                                (indptr_of (map (fun u => u / sz) (ind' ps)) (hd 0 sh')) (g_fill g)))).
-    { commonN.
-      assert (E2 : negb match filter kept rest with [] => true | _ :: _ => false end = true) by (fold kr; destruct kr; [contradiction|reflexivity]).
-      fold kc. rewrite !E2, !H1. cbv beta iota zeta. cbn [negb]. cbv beta iota zeta. unfold sh' in ER. rewrite ER. rewrite shN_not1. reflexivity. }
-    rewrite F. destruct (RW_single H1) as [r Hr].
-    rewrite (tail_eval V c ca Hc Hok Hca Hnd RW CL pos HRW_nd HCL_nd Hpos_nd) by (cbv beta; rewrite Hr; reflexivity).
-    unfold dat', ind'. rewrite g_data_eqN, g_fill_eqN.
-    apply (none_0 _ _ caN (K_of_U H1) ER (Lo_fst_cols V c ca RW CL r Hr) eq_refl).
-  Qed.
-
-  Lemma nd_none_case : post V c (out_shape (map to_r key)) gsrcN (gcxs_getitem_nd V g ix).
-  Proof.
-    rewrite shN_eq.
-    destruct kc as [|a0 l0] eqn:Ekc, kr as [|a1 l1] eqn:Ekr.
-    - exfalso. apply K_nonempty. pose proof K_length as Hl. rewrite Ekc, Ekr in Hl. destruct K; [reflexivity|simpl in Hl; lia].
-    - apply none_U; [exact Ekc|rewrite Ekr; discriminate].
-    - apply none_C; [rewrite Ekc; discriminate|exact Ekr].
-    - apply none_M; [rewrite Ekc; discriminate|rewrite Ekr; discriminate].
-  Qed.
-  End WithNone.
 End Nd.
 
 (* ================================================================ all-integer indices *)
@@ -1152,98 +886,20 @@ Proof.
     repeat split; [lia|lia|exact E2|exact E3].
 Qed.
 
-(* ================================================================ the conditions on None, on the index as written *)
-(* an integer stands before a None (the code then inserts the new axis at the wrong place: D28) *)
-Fixpoint int_before_none (seen_int : bool) (ix : index) : bool :=
-  match ix with
-  | [] => false
-  | IInt _ :: r => int_before_none true r
-  | INone :: r => seen_int || int_before_none seen_int r
-  | _ :: r => int_before_none seen_int r
-  end.
-
-Definition keeps (e : ientry) : bool := consumes e && negb (is_iint e).
-
-(* at least two axes survive (with one the code builds a 2-d record without indptr: D27; with none it raises: D22) *)
-Definition kept_ge2 (sh : shape) (ix : index) : bool :=
-  match expand (Z.of_nat (length sh)) ix with
-  | Ok ex => (2 <=? length (filter keeps ex))%nat
-  | Raise _ => true
-  end.
-
-Lemma ibn_true_no_new ix : int_before_none true ix = false -> no_new ix = true.
+Lemma out_shape_aux_ok rs : forall seen, shape_ok (out_shape_aux seen rs).
 Proof.
-  induction ix as [|e r IH]; intros H; [reflexivity|]. destruct e; cbn [int_before_none] in H; try discriminate;
-    unfold no_new; cbn [forallb is_new negb]; apply IH; exact H.
+  unfold shape_ok. induction rs as [|r rs IH]; intros seen; [constructor|].
+  destruct r; cbn [out_shape_aux]; try apply IH; try (constructor; [lia|apply IH]).
+  destruct seen; [apply IH|constructor; [lia|apply IH]].
 Qed.
 
-Lemma ibn_app_full seen ix k : int_before_none seen (ix ++ repeat full_slice k) = int_before_none seen ix.
+Lemma np_index_shape_ok sh ix sh' gsrc : np_index sh ix = Ok (sh', gsrc) -> shape_ok sh'.
 Proof.
-  revert seen. induction ix as [|e r IH]; intros seen.
-  - cbn [app]. induction k as [|k IHk]; [reflexivity|exact IHk].
-  - destruct e; cbn [app int_before_none]; rewrite ?IH; reflexivity.
+  rewrite np_index_eq. destruct (resolve_all sh ix) as [rs|]; [|discriminate]. cbn [bind].
+  destruct (broadcast rs) as [rs'|]; [|discriminate]. cbn [bind]. intros H. inversion H. apply out_shape_aux_ok.
 Qed.
 
-Lemma ibn_full_app seen k r : int_before_none seen (repeat full_slice k ++ r) = int_before_none seen r.
-Proof. induction k as [|k IH]; [reflexivity|exact IH]. Qed.
-
-Lemma ibn_subst seen k ix : int_before_none seen (subst_ellipsis (repeat full_slice k) ix) = int_before_none seen ix.
-Proof.
-  revert seen. induction ix as [|e r IH]; intros seen; [reflexivity|].
-  destruct e; cbn [subst_ellipsis int_before_none]; rewrite ?IH; try reflexivity. apply ibn_full_app.
-Qed.
-
-Lemma ibn_expand nd ix ex : expand nd ix = Ok ex -> int_before_none false ex = int_before_none false ix.
-Proof.
-  unfold expand. destruct (1 <? countb is_ell ix); [discriminate|].
-  destruct (nd - countb consumes ix <? 0); [discriminate|]. intros H. inversion H; subst ex. clear H.
-  destruct (0 <? countb is_ell ix); [apply ibn_subst|apply ibn_app_full].
-Qed.
-
-Lemma norm_none_ok ex : forall sh seen,
-  int_before_none seen ex = false -> fits ex sh = true -> shape_okb sh = true -> no_zero_step ex = true ->
-  none_ok (norm_all ex sh) = true.
-Proof.
-  induction ex as [|e r IH]; intros sh seen Hi Hf Hsh Hz; [reflexivity|].
-  simpl in Hz. apply andb_true_iff in Hz. destruct Hz as [Hze Hz].
-  destruct e; try discriminate.
-  - (* integer *)
-    destruct sh as [|d sh']; [discriminate|]. simpl in Hsh, Hf. apply andb_true_iff in Hsh. destruct Hsh as [Hd Hsh].
-    cbn [int_before_none] in Hi. cbn [norm_all nentry_spec none_ok].
-    apply (norm_all_not_none r sh' (ibn_true_no_new r Hi) Hf Hsh Hz).
-  - destruct sh as [|d sh']; [discriminate|]. simpl in Hsh, Hf. apply andb_true_iff in Hsh. destruct Hsh as [Hd Hsh].
-    cbn [int_before_none] in Hi. cbn [norm_all nentry_spec].
-    assert (Hc : c <> Some 0) by (intros ->; discriminate).
-    destruct (normalize_slice_ok a b c d ltac:(lia) Hc) as [s0 [e' [st [En _]]]].
-    unfold nslice_of. rewrite En. cbn [none_ok]. apply (IH sh' seen Hi Hf Hsh Hz).
-  - cbn [int_before_none] in Hi. apply orb_false_iff in Hi. destruct Hi as [_ Hi]. simpl in Hf.
-    cbn [norm_all none_ok]. apply (IH sh seen Hi Hf Hsh Hz).
-  - destruct sh as [|d sh']; [discriminate|]. simpl in Hsh, Hf. apply andb_true_iff in Hsh. destruct Hsh as [Hd Hsh].
-    cbn [int_before_none] in Hi. cbn [norm_all nentry_spec none_ok]. apply (IH sh' seen Hi Hf Hsh Hz).
-  - destruct sh as [|d sh']; [discriminate|]. simpl in Hsh, Hf. apply andb_true_iff in Hsh. destruct Hsh as [Hd Hsh].
-    cbn [int_before_none] in Hi. cbn [norm_all nentry_spec none_ok]. apply (IH sh' seen Hi Hf Hsh Hz).
-Qed.
-
-Lemma norm_kcnt ex : forall sh,
-  fits ex sh = true -> shape_okb sh = true -> no_zero_step ex = true ->
-  kcnt (norm_all ex sh) = length (filter keeps ex).
-Proof.
-  unfold kcnt. induction ex as [|e r IH]; intros sh Hf Hsh Hz; [reflexivity|].
-  simpl in Hz. apply andb_true_iff in Hz. destruct Hz as [Hze Hz].
-  destruct e; try discriminate.
-  - destruct sh as [|d sh']; [discriminate|]. simpl in Hsh, Hf. apply andb_true_iff in Hsh. destruct Hsh as [Hd Hsh].
-    cbn [norm_all nentry_spec filter is_keep keeps consumes is_iint negb andb]. apply (IH sh' Hf Hsh Hz).
-  - destruct sh as [|d sh']; [discriminate|]. simpl in Hsh, Hf. apply andb_true_iff in Hsh. destruct Hsh as [Hd Hsh].
-    cbn [norm_all nentry_spec].
-    assert (Hc : c <> Some 0) by (intros ->; discriminate).
-    destruct (normalize_slice_ok a b c d ltac:(lia) Hc) as [s0 [e' [st [En _]]]].
-    unfold nslice_of. rewrite En. cbn [filter is_keep keeps consumes is_iint negb andb length]. f_equal. apply (IH sh' Hf Hsh Hz).
-  - simpl in Hf. cbn [norm_all filter is_keep keeps consumes andb]. apply (IH sh Hf Hsh Hz).
-  - destruct sh as [|d sh']; [discriminate|]. simpl in Hsh, Hf. apply andb_true_iff in Hsh. destruct Hsh as [Hd Hsh].
-    cbn [norm_all nentry_spec filter is_keep keeps consumes is_iint negb andb length]. f_equal. apply (IH sh' Hf Hsh Hz).
-  - destruct sh as [|d sh']; [discriminate|]. simpl in Hsh, Hf. apply andb_true_iff in Hsh. destruct Hsh as [Hd Hsh].
-    cbn [norm_all nentry_spec filter is_keep keeps consumes is_iint negb andb length]. f_equal. apply (IH sh' Hf Hsh Hz).
-Qed.
+From Verif Require Import ConvertP.
 
 Section NdMain.
   Variable V : Type.
@@ -1294,9 +950,15 @@ Section NdMain.
         * destruct HC.
   Qed.
 
-  Lemma getitem_nd_eq (kf : nat -> nat) (c : coo V) (ca : list Z) ix :
+  Lemma existsb_nnone key : existsb is_nnone key = negb (forallb not_none key).
+  Proof. induction key as [|e r IH]; [reflexivity|]. cbn [existsb forallb]. rewrite IH. unfold not_none. destruct (is_nnone e); reflexivity. Qed.
+
+  (* ndim >= 2: a key with None takes the COO route, every other key the n-d code *)
+  Lemma getitem_dispatch (kf : nat -> nat) (c : coo V) (ca : list Z) ix :
     shape_ok (c_shape c) -> caxes_okb (Z.of_nat (length (c_shape c))) ca = true -> (2 <= length (c_shape c))%nat ->
-    gcxs_getitem V veqb add kf (gcxs_from_coo c ca) ix = gcxs_getitem_nd V (gcxs_from_coo c ca) ix
+    gcxs_getitem V veqb add kf (gcxs_from_coo c ca) ix
+    = (key <- normalize_index ix (c_shape c) ;;
+       if existsb is_nnone key then coo_route V veqb add kf (gcxs_from_coo c ca) ix else gcxs_getitem_nd V (gcxs_from_coo c ca) ix)
     /\ g_shape (gcxs_from_coo c ca) = c_shape c.
   Proof.
     intros Hok Hca Hnd. pose proof (from_coo_nf V c ca Hok Hca Hnd) as Hg.
@@ -1304,108 +966,42 @@ Section NdMain.
     unfold gcxs_getitem. rewrite Hgs. destruct (c_shape c) as [|d0 [|d1 t]]; simpl in Hnd; try lia. reflexivity.
   Qed.
 
+  (* the COO route: GCXS.from_coo(x.tocoo()[key]) with the default compressed axes *)
+  Lemma coo_route_post (kf : nat -> nat) (c : coo V) (ca : list Z) ix sh' gsrc :
+    canonical V c -> shape_ok (c_shape c) -> axes_ok (c_shape c) ca -> shape_ok sh' ->
+    match getitem kf c ix with
+    | Ok (GArr y) => yfacts V c y sh' gsrc
+    | Ok (GScalar v) => sh' = [] /\ v = den c (gsrc [])
+    | Raise _ => False
+    end ->
+    post' V c sh' gsrc (coo_route V veqb add kf (gcxs_from_coo c ca) ix).
+  Proof.
+    intros Hc Hok Hax Hok' HC. unfold coo_route. rewrite (tocoo_from_coo_proof V veqb add c ca Hc Hok Hax).
+    destruct (getitem kf c ix) as [[v|y]|e]; cbn [bind]; [exact HC| |exact HC].
+    destruct (resolve_axes (c_shape y) None) as [ca'|] eqn:Era.
+    2: { unfold resolve_axes in Era. destruct (Z.of_nat (length (c_shape y)) <? 2); discriminate. }
+    cbn [bind]. apply (post_post' V veqb add). apply (post_from_coo V veqb add c y sh' gsrc ca' HC Hok').
+    destruct HC as [Hy_sh _]. rewrite <- Hy_sh. apply (resolve_axes_ok _ _ _ Era).
+  Qed.
+
   Lemma shape_ok_okb sh : shape_ok sh -> shape_okb sh = true.
   Proof. intros Hok. apply forallb_forall. intros d Hd. unfold shape_ok in Hok. rewrite Forall_forall in Hok. apply Z.leb_le, Hok, Hd. Qed.
-
-  (* basic indices *)
-  Theorem gcxs_getitem_nd_proof (kf : nat -> nat) (c : coo V) (ca : list Z) (ix : index) :
-    canonical V c -> shape_ok (c_shape c) -> caxes_okb (Z.of_nat (length (c_shape c))) ca = true ->
-    StronglySorted Z.lt ca -> (2 <= length (c_shape c))%nat ->
-    no_zero_step ix = true -> basic ix = true -> no_new ix = true ->
-    match np_index (c_shape c) ix with
-    | Raise e => gcxs_getitem V veqb add kf (gcxs_from_coo c ca) ix = Raise e /\ e = IndexError
-    | Ok (sh', gsrc) => post' V c sh' gsrc (gcxs_getitem V veqb add kf (gcxs_from_coo c ca) ix)
-    end.
-  Proof.
-    intros Hc Hok Hca Hsorted Hnd Hz Hb Hnn. set (sh := c_shape c).
-    pose proof (shape_ok_okb sh Hok) as Hshb.
-    destruct (getitem_nd_eq kf c ca ix Hok Hca Hnd) as [Hgi Hgs]. rewrite Hgi. clear Hgi.
-    pose proof (coo_getitem_basic_strong V kf c ix Hc Hshb Hz Hb) as HC. fold sh in HC.
-    assert (Hd : d29_clause sh ix = true).
-    { unfold d29_clause. destruct (expand (Z.of_nat (length sh)) ix) as [ex|] eqn:E; [|reflexivity].
-      apply basic_bool_ok. eapply basic_expand; eauto. }
-    destruct (normalize_link sh ix Hshb Hz Hd) as [[ex [E [Hf [Hao [Hn Hr]]]]]|[Hn Hr]].
-    2: { rewrite np_index_eq, Hr. cbn [bind]. unfold gcxs_getitem_nd. rewrite Hgs. fold sh. rewrite Hn. auto. }
-    set (nix := norm_all ex sh) in *.
-    assert (Hwf : nwf nix sh) by (apply norm_all_nwf; auto; eapply expand_nzs; eauto).
-    assert (Hna : no_arr nix = true) by (apply basic_norm_no_arr; eapply basic_expand; eauto).
-    assert (Hno : forallb not_none nix = true).
-    { apply norm_all_not_none; auto; [eapply no_new_expand; eauto|eapply expand_nzs; eauto]. }
-    rewrite (np_index_basic sh ix nix Hr Hna) in *.
-    apply (nd_core kf c ca ix nix Hc Hok Hca Hsorted Hnd Hn Hwf Hno); [rewrite (no_arr_n_arr nix Hna); apply Nat.le_0_l|].
-    destruct (getitem kf c ix) as [[v|y]|e]; exact HC.
-  Qed.
-
-  (* one index array (integer or boolean), the other entries basic *)
-  Theorem gcxs_getitem_nd_one_array_proof (kf : nat -> nat) (c : coo V) (ca : list Z) (ix : index) :
-    canonical V c -> shape_ok (c_shape c) -> caxes_okb (Z.of_nat (length (c_shape c))) ca = true ->
-    StronglySorted Z.lt ca -> (2 <= length (c_shape c))%nat ->
-    no_zero_step ix = true -> one_array ix = true -> d29_clause (c_shape c) ix = true -> no_new ix = true ->
-    match np_index (c_shape c) ix with
-    | Raise e => gcxs_getitem V veqb add kf (gcxs_from_coo c ca) ix = Raise e /\ e = IndexError
-    | Ok (sh', gsrc) => post' V c sh' gsrc (gcxs_getitem V veqb add kf (gcxs_from_coo c ca) ix)
-    end.
-  Proof.
-    intros Hc Hok Hca Hsorted Hnd Hz Hone Hd Hnn. set (sh := c_shape c) in *.
-    pose proof (shape_ok_okb sh Hok) as Hshb.
-    destruct (getitem_nd_eq kf c ca ix Hok Hca Hnd) as [Hgi Hgs]. rewrite Hgi. clear Hgi.
-    pose proof (coo_getitem_one_array_strong V kf c ix Hc Hshb Hz Hone Hd) as HC. fold sh in HC.
-    destruct (normalize_link sh ix Hshb Hz Hd) as [[ex [E [Hf [Hao [Hn Hr]]]]]|[Hn Hr]].
-    2: { rewrite np_index_eq, Hr. cbn [bind]. unfold gcxs_getitem_nd. rewrite Hgs. fold sh. rewrite Hn. auto. }
-    set (nix := norm_all ex sh) in *.
-    assert (Hwf : nwf nix sh) by (apply norm_all_nwf; auto; eapply expand_nzs; eauto).
-    assert (Hn1 : n_arr nix = 1%nat).
-    { pose proof (n_arr_norm ex sh Hf) as H. fold nix in H. rewrite (expand_count_arr _ _ _ E) in H.
-      unfold one_array in Hone. apply Z.eqb_eq in Hone. clear - H Hone. lia. }
-    assert (Hno : forallb not_none nix = true).
-    { apply norm_all_not_none; auto; [eapply no_new_expand; eauto|eapply expand_nzs; eauto]. }
-    destruct (one_arr_split nix Hn1) as [pre [l [post [Enix [Hpre Hpost]]]]].
-    assert (Enp : np_index sh ix = Ok (out_shape (map to_r nix), src_of (map to_r nix))).
-    { rewrite np_index_eq, Hr. cbn [bind]. rewrite Enix, (broadcast_one pre l post Hpre Hpost). reflexivity. }
-    rewrite Enp in *.
-    apply (nd_core kf c ca ix nix Hc Hok Hca Hsorted Hnd Hn Hwf Hno); [rewrite Hn1; apply le_n|].
-    destruct (getitem kf c ix) as [[v|y]|e]; exact HC.
-  Qed.
 
   (* ---------------------------------------------------------------- every covered index class, None included *)
   Definition gcxs_ix_class (sh : shape) (ix : index) : Prop :=
     basic ix = true \/ (one_array ix = true /\ d29_clause sh ix = true).
-  Definition gcxs_none_cond (sh : shape) (ix : index) : Prop :=
-    no_new ix = true \/ (int_before_none false ix = false /\ kept_ge2 sh ix = true).
-
-  Lemma n_arr_filter key : n_arr (filter not_none key) = n_arr key.
-  Proof.
-    unfold n_arr. f_equal. induction key as [|e r IH]; [reflexivity|].
-    destruct e; cbn [filter not_none is_nnone negb is_narr]; rewrite ?IH; reflexivity.
-  Qed.
-
-  Lemma all_full_none key sh : forallb not_none key = false -> all_full key sh = false.
-  Proof.
-    intros Hnn. destruct (all_full key sh) eqn:Haf; [|reflexivity]. exfalso.
-    destruct (all_full_true key sh Haf) as [El Ef]. rewrite forallb_forall in Ef.
-    assert (Hex : exists e, In e key /\ not_none e = false).
-    { clear - Hnn. induction key as [|e r IH]; [discriminate|]. simpl in Hnn. destruct (not_none e) eqn:E.
-      - destruct (IH Hnn) as [e' [H1 H2]]. exists e'. split; [right; exact H1|exact H2].
-      - exists e. split; [left; reflexivity|exact E]. }
-    destruct Hex as [e [He Hne]]. destruct e; try discriminate.
-    destruct (In_nth _ _ NNone He) as [k [Hk Ek]].
-    assert (Hin : In (NNone, nth k sh 0) (combine key sh)).
-    { rewrite <- Ek. rewrite <- (combine_nth key sh k NNone 0 El). apply nth_In. rewrite combine_length, <- El, Nat.min_id. exact Hk. }
-    specialize (Ef _ Hin). discriminate.
-  Qed.
-
   Theorem gcxs_getitem_nd_general_proof (kf : nat -> nat) (c : coo V) (ca : list Z) (ix : index) :
     canonical V c -> shape_ok (c_shape c) -> caxes_okb (Z.of_nat (length (c_shape c))) ca = true ->
     StronglySorted Z.lt ca -> (2 <= length (c_shape c))%nat ->
-    no_zero_step ix = true -> gcxs_ix_class (c_shape c) ix -> gcxs_none_cond (c_shape c) ix ->
+    no_zero_step ix = true -> gcxs_ix_class (c_shape c) ix ->
     match np_index (c_shape c) ix with
     | Raise e => gcxs_getitem V veqb add kf (gcxs_from_coo c ca) ix = Raise e /\ e = IndexError
     | Ok (sh', gsrc) => post' V c sh' gsrc (gcxs_getitem V veqb add kf (gcxs_from_coo c ca) ix)
     end.
   Proof.
-    intros Hc Hok Hca Hsorted Hnd Hz Hcls Hnone. set (sh := c_shape c) in *.
+    intros Hc Hok Hca Hsorted Hnd Hz Hcls. set (sh := c_shape c) in *.
     pose proof (shape_ok_okb sh Hok) as Hshb.
-    destruct (getitem_nd_eq kf c ca ix Hok Hca Hnd) as [Hgi Hgs]. rewrite Hgi. clear Hgi.
+    destruct (getitem_dispatch kf c ca ix Hok Hca Hnd) as [Hgi Hgs]. rewrite Hgi. clear Hgi. fold sh.
     assert (Hd : d29_clause sh ix = true).
     { destruct Hcls as [Hb|[_ Hd]]; [|exact Hd]. unfold d29_clause. destruct (expand (Z.of_nat (length sh)) ix) as [ex|] eqn:E; [|reflexivity].
       apply basic_bool_ok. eapply basic_expand; eauto. }
@@ -1422,7 +1018,7 @@ Section NdMain.
       - exact (coo_getitem_basic_strong V kf c ix Hc Hshb Hz Hb).
       - exact (coo_getitem_one_array_strong V kf c ix Hc Hshb Hz Hone Hd). }
     destruct (normalize_link sh ix Hshb Hz Hd) as [[ex [E [Hf [Hao [Hn Hr]]]]]|[Hn Hr]].
-    2: { rewrite np_index_eq, Hr. cbn [bind]. unfold gcxs_getitem_nd. rewrite Hgs. fold sh. rewrite Hn. auto. }
+    2: { rewrite np_index_eq, Hr. cbn [bind]. rewrite Hn. auto. }
     set (key := norm_all ex sh) in *.
     assert (Hzx : no_zero_step ex = true) by (eapply expand_nzs; eauto).
     assert (Hwfk : nwf key sh) by (apply norm_all_nwf; auto).
@@ -1436,41 +1032,14 @@ Section NdMain.
         split; [rewrite Hn1; apply le_n|]. destruct (one_arr_split key Hn1) as [pre [l [post [Ekey [Hpre Hpost]]]]].
         rewrite np_index_eq, Hr. cbn [bind]. rewrite Ekey, (broadcast_one pre l post Hpre Hpost). reflexivity. }
     destruct HnaK as [HnaK Enp]. rewrite Enp in *.
-    destruct (forallb not_none key) eqn:Hnn.
-    - (* no None *)
+    rewrite Hn. cbn [bind]. rewrite existsb_nnone.
+    destruct (forallb not_none key) eqn:Hnn; cbn [negb].
+    - (* no None: the n-d code *)
       apply (nd_core kf c ca ix key Hc Hok Hca Hsorted Hnd Hn Hwfk Hnn HnaK).
       destruct (getitem kf c ix) as [[v|y]|e]; exact HC.
-    - (* None *)
-      destruct Hnone as [Hnew|[Hibn Hk2]].
-      { exfalso. assert (H : forallb not_none key = true); [|congruence].
-        apply norm_all_not_none; auto. eapply no_new_expand; eauto. }
-      set (nix := filter not_none key).
-      assert (Hwf : nwf nix sh) by (apply nwf_filter; exact Hwfk).
-      assert (Hno : forallb not_none nix = true) by apply filter_not_none_all.
-      assert (Hna : (n_arr nix <= 1)%nat) by (unfold nix; rewrite n_arr_filter; exact HnaK).
-      assert (Hnok : none_ok key = true).
-      { apply (norm_none_ok ex sh false); auto. rewrite (ibn_expand _ _ _ E). exact Hibn. }
-      assert (HK2 : (2 <= length (filter (fun e => negb (is_nint e)) nix))%nat).
-      { unfold kept_ge2 in Hk2. rewrite E in Hk2. apply Nat.leb_le in Hk2.
-        rewrite <- (norm_kcnt ex sh Hf Hshb Hzx) in Hk2. fold key in Hk2. rewrite kcnt_filter in Hk2. exact Hk2. }
-      assert (Hint : forallb is_nint nix = false).
-      { destruct (forallb is_nint nix) eqn:Ei; [|reflexivity]. exfalso. rewrite forallb_forall in Ei.
-        destruct (filter (fun e => negb (is_nint e)) nix) as [|e0 t] eqn:Efl; [simpl in HK2; clear - HK2; lia|].
-        assert (He : In e0 (filter (fun e => negb (is_nint e)) nix)) by (rewrite Efl; left; reflexivity).
-        apply filter_In in He. destruct He as [He Hne]. rewrite (Ei e0 He) in Hne. discriminate. }
-      assert (HK2' : (2 <= length (K V c nix))%nat) by (erewrite K_len_filter; eassumption).
-      assert (HafN : all_full key sh = false) by (apply all_full_none; exact Hnn).
-      assert (HintN : forallb is_nint key = false).
-      { destruct (forallb is_nint key) eqn:Ei; [|reflexivity]. exfalso. rewrite forallb_forall in Ei.
-        assert (H : forallb not_none key = true); [|congruence]. apply forallb_forall. intros e He. specialize (Ei e He). destruct e; try discriminate; reflexivity. }
-      apply (post_post' V veqb add).
-      destruct (getitem kf c ix) as [[v|y]|e].
-      + exfalso. destruct HC as [HC _].
-        assert (Es : out_shape (map to_r key) = shN V c nix key) by (eapply shN_eq; try eassumption; reflexivity).
-        assert (Hl : (2 <= length (shN V c nix key))%nat) by (eapply shN_len; try eassumption; reflexivity).
-        rewrite <- Es, HC in Hl. simpl in Hl. clear - Hl. lia.
-      + eapply nd_none_case; try eassumption. reflexivity.
-      + destruct HC.
+    - (* None: the COO route *)
+      apply (coo_route_post kf c ca ix _ _ Hc Hok ltac:(right; exact Hca) (out_shape_aux_ok _ false)).
+      destruct (getitem kf c ix) as [[v|y]|e]; exact HC.
   Qed.
 End NdMain.
 
@@ -1485,7 +1054,7 @@ Section NdAny.
 
   Theorem gcxs_getitem_any_proof (kf : nat -> nat) (g : gcxs V) ix :
     gcxs_wfb g = true -> (2 <= length (g_shape g))%nat -> StronglySorted Z.lt (g_caxes g) ->
-    no_zero_step ix = true -> gcxs_ix_class (g_shape g) ix -> gcxs_none_cond (g_shape g) ix ->
+    no_zero_step ix = true -> gcxs_ix_class (g_shape g) ix ->
     match np_index (g_shape g) ix with
     | Raise e => gcxs_getitem V veqb add kf g ix = Raise e /\ e = IndexError
     | Ok (sh', gsrc) =>
@@ -1497,7 +1066,7 @@ Section NdAny.
       end
     end.
   Proof.
-    intros Hwf Hnd Hsorted Hz Hb Hnn.
+    intros Hwf Hnd Hsorted Hz Hb.
     assert (Hs : gcxs_strictb V g = true).
     { unfold gcxs_strictb. rewrite Hwf. destruct (Nat.leb_spec 2 (length (g_shape g))); [reflexivity|lia]. }
     destruct (gcxs_image V g Hs) as [c [Hc [Hcs [Hf [Hok [Hax Heq]]]]]].
@@ -1506,7 +1075,7 @@ Section NdAny.
     assert (Hden : forall j, gden g j = den c j).
     { intros j. rewrite <- Heq. apply (gcxs_from_coo_den_proof V veqb add c (g_caxes g) j Hc); rewrite Hcs; assumption. }
     pose proof (gcxs_getitem_nd_general_proof V veqb add kf c (g_caxes g) ix Hc ltac:(rewrite Hcs; exact Hok) Hca Hsorted
-                  ltac:(rewrite Hcs; exact Hnd) Hz ltac:(rewrite Hcs; exact Hb) ltac:(rewrite Hcs; exact Hnn)) as H.
+                  ltac:(rewrite Hcs; exact Hnd) Hz ltac:(rewrite Hcs; exact Hb)) as H.
     rewrite Heq, Hcs in H.
     destruct (np_index (g_shape g) ix) as [[sh' gsrc]|e]; [|exact H].
     unfold post' in H. destruct (gcxs_getitem V veqb add kf g ix) as [[v|g']|e]; [| |exact H].
@@ -1518,7 +1087,7 @@ Section NdAny.
   (* the two halves under the names of the property list *)
   Theorem gcxs_getitem_den_proof (kf : nat -> nat) (g : gcxs V) ix :
     gcxs_wfb g = true -> (2 <= length (g_shape g))%nat -> StronglySorted Z.lt (g_caxes g) ->
-    no_zero_step ix = true -> gcxs_ix_class (g_shape g) ix -> gcxs_none_cond (g_shape g) ix ->
+    no_zero_step ix = true -> gcxs_ix_class (g_shape g) ix ->
     match np_index (g_shape g) ix with
     | Raise e => gcxs_getitem V veqb add kf g ix = Raise e /\ e = IndexError
     | Ok (sh', gsrc) =>
@@ -1530,19 +1099,19 @@ Section NdAny.
       end
     end.
   Proof.
-    intros Hwf Hnd Hsorted Hz Hb Hnn.
-    pose proof (gcxs_getitem_any_proof kf g ix Hwf Hnd Hsorted Hz Hb Hnn) as H.
+    intros Hwf Hnd Hsorted Hz Hb.
+    pose proof (gcxs_getitem_any_proof kf g ix Hwf Hnd Hsorted Hz Hb) as H.
     destruct (np_index (g_shape g) ix) as [[sh' gsrc]|e]; [|exact H].
     destruct (gcxs_getitem V veqb add kf g ix) as [[v|g']|e]; [exact H| |exact H]. tauto.
   Qed.
 
   Theorem gcxs_getitem_wf_proof (kf : nat -> nat) (g : gcxs V) ix g' :
     gcxs_wfb g = true -> (2 <= length (g_shape g))%nat -> StronglySorted Z.lt (g_caxes g) ->
-    no_zero_step ix = true -> gcxs_ix_class (g_shape g) ix -> gcxs_none_cond (g_shape g) ix ->
+    no_zero_step ix = true -> gcxs_ix_class (g_shape g) ix ->
     gcxs_getitem V veqb add kf g ix = Ok (GGArr g') -> gcxs_wfb g' = true.
   Proof.
-    intros Hwf Hnd Hsorted Hz Hb Hnn Hg.
-    pose proof (gcxs_getitem_any_proof kf g ix Hwf Hnd Hsorted Hz Hb Hnn) as H. rewrite Hg in H.
+    intros Hwf Hnd Hsorted Hz Hb Hg.
+    pose proof (gcxs_getitem_any_proof kf g ix Hwf Hnd Hsorted Hz Hb) as H. rewrite Hg in H.
     destruct (np_index (g_shape g) ix) as [[sh' gsrc]|e]; [tauto|destruct H; discriminate].
   Qed.
 End NdAny.
@@ -1571,51 +1140,37 @@ Example gcxs_getitem_none_array_nonvacuous :
   let g := gcxs_from_coo nx_c [0; 2] in
   let full := ISlice None None None in
   (let ix := [INone; full; full; IInt 0] in
-   gcxs_ix_class (g_shape g) ix /\ gcxs_none_cond (g_shape g) ix
+   gcxs_ix_class (g_shape g) ix
    /\ exists r, rx_get g ix = Ok (GGArr r) /\ gcxs_wfb r = true /\ g_shape r = [1; 2; 3] /\ gden r [0; 1; 2] = 4)
   /\
   (let ix := [full; INone; ISlice (Some 1) None None; INone] in
-   gcxs_ix_class (g_shape g) ix /\ gcxs_none_cond (g_shape g) ix
+   gcxs_ix_class (g_shape g) ix
    /\ exists r, rx_get g ix = Ok (GGArr r) /\ gcxs_wfb r = true /\ g_shape r = [2; 1; 2; 1; 2] /\ gden r [1; 0; 0; 0; 1] = 9)
   /\
   (let ix := [IArr [1; 0; 1]; full; IInt 1] in
-   gcxs_ix_class (g_shape g) ix /\ gcxs_none_cond (g_shape g) ix
+   gcxs_ix_class (g_shape g) ix
    /\ exists r, rx_get g ix = Ok (GGArr r) /\ gcxs_wfb r = true /\ g_shape r = [3; 3] /\ gden r [2; 1] = 9 /\ gden r [1; 0] = 7)
   /\
   (let ix := [INone; IBArr [true; false]; ISlice None None (Some (-1))] in
-   gcxs_ix_class (g_shape g) ix /\ gcxs_none_cond (g_shape g) ix
+   gcxs_ix_class (g_shape g) ix
    /\ exists r, rx_get g ix = Ok (GGArr r) /\ gcxs_wfb r = true /\ g_shape r = [1; 1; 3; 2] /\ gden r [0; 0; 0; 0] = 5).
 Proof.
   cbv zeta. repeat split; try (left; reflexivity); try (right; split; reflexivity);
     try (eexists; split; [vm_compute; reflexivity|repeat split; reflexivity]).
 Qed.
 
-(* ================================================================ ndim = 1: x.tocoo()[key], back through GCXS.from_coo *)
-From Verif Require Import ConvertP.
-
-Lemma out_shape_aux_ok rs : forall seen, shape_ok (out_shape_aux seen rs).
-Proof.
-  unfold shape_ok. induction rs as [|r rs IH]; intros seen; [constructor|].
-  destruct r; cbn [out_shape_aux]; try apply IH; try (constructor; [lia|apply IH]).
-  destruct seen; [apply IH|constructor; [lia|apply IH]].
-Qed.
-
-Lemma np_index_shape_ok sh ix sh' gsrc : np_index sh ix = Ok (sh', gsrc) -> shape_ok sh'.
-Proof.
-  rewrite np_index_eq. destruct (resolve_all sh ix) as [rs|]; [|discriminate]. cbn [bind].
-  destruct (broadcast rs) as [rs'|]; [|discriminate]. cbn [bind]. intros H. inversion H. apply out_shape_aux_ok.
-Qed.
+(* ================================================================ ndim <= 1: x.tocoo()[key], back through GCXS.from_coo *)
 
 Section Gcxs1d.
   Variable V : Type.
   Variable veqb : V -> V -> bool.
   Variable add : V -> V -> V.
 
-  (* whatever the COO theorems say about x.tocoo()[key] carries over *)
-  Theorem gcxs_getitem_1d_proof (kf : nat -> nat) (g : gcxs V) (d : Z) (ix : index) :
-    gcxs_wfb g = true -> g_shape g = [d] -> g_caxes g = [] -> g_indptr g = [] ->
+  (* whatever the COO theorems say about x.tocoo()[key] carries over (0-d and 1-d arrays) *)
+  Theorem gcxs_getitem_1d_proof (kf : nat -> nat) (g : gcxs V) (ix : index) :
+    gcxs_wfb g = true -> (length (g_shape g) <= 1)%nat -> g_caxes g = [] -> g_indptr g = [] ->
     let c := gcxs_tocoo veqb add g in
-    match np_index [d] ix with
+    match np_index (g_shape g) ix with
     | Raise e => getitem kf c ix = Raise e
     | Ok (sh', gsrc) =>
       match getitem kf c ix with
@@ -1625,7 +1180,7 @@ Section Gcxs1d.
       | Raise _ => False
       end
     end ->
-    match np_index [d] ix with
+    match np_index (g_shape g) ix with
     | Raise e => gcxs_getitem V veqb add kf g ix = Raise e
     | Ok (sh', gsrc) =>
       match gcxs_getitem V veqb add kf g ix with
@@ -1638,10 +1193,12 @@ Section Gcxs1d.
   Proof.
     intros Hwf Hsh Hca Hip c HC.
     assert (Hs : gcxs_strictb V g = true).
-    { unfold gcxs_strictb. rewrite Hwf, Hsh, Hca, Hip. reflexivity. }
+    { unfold gcxs_strictb. rewrite Hwf, Hca, Hip. destruct (Nat.leb_spec 2 (length (g_shape g))); [lia|reflexivity]. }
     destruct (tocoo_canonical V veqb add g Hs) as [Hc [Hcs [Hcf Hden]]]. fold c in Hc, Hcs, Hcf, Hden.
-    unfold gcxs_getitem. rewrite Hsh. fold c.
-    destruct (np_index [d] ix) as [[sh' gsrc]|e] eqn:Enp; [|rewrite HC; reflexivity].
+    assert (Hgi : gcxs_getitem V veqb add kf g ix = coo_route V veqb add kf g ix).
+    { unfold gcxs_getitem. destruct (g_shape g) as [|d0 [|d1 t]]; [reflexivity|reflexivity|simpl in Hsh; lia]. }
+    rewrite Hgi. unfold coo_route. fold c.
+    destruct (np_index (g_shape g) ix) as [[sh' gsrc]|e] eqn:Enp; [|rewrite HC; reflexivity].
     pose proof (np_index_shape_ok _ _ _ _ Enp) as Hok'.
     destruct (getitem kf c ix) as [[v|y]|e]; cbn [bind]; [| |exact HC].
     - destruct HC as [H1 H2]. split; [exact H1|]. rewrite <- Hden. exact H2.
